@@ -17,6 +17,9 @@ bound check" — is exactly `siteOK` for every extracted site.
   * `missing`     no check although a bound is declared (or nothing is declared at all);
   * `after`       the check exists but only AFTER the allocation;
   * `stale`       the code enforces a bound different from the declared one (generated file out of date / edited by hand);
+  * `passes`      (kind `call`) a nested generated decoder is entered as `.UnmarshalMsgWithState(bts, st)` with THIS function's
+                  already decremented state: the depth budget is shared along the whole nesting;
+  * `resets`      the nested decoder is entered any other way (`.UnmarshalMsg(bts)`: a fresh `DefaultUnmarshalState`);
   * `undominated` an allocation whose size is not a tracked header value, or a header read of unknown use.
 
 Core Lean only.
@@ -24,11 +27,11 @@ Core Lean only.
 namespace AlgoVerif.MsgpSite
 
 inductive Kind where
-  | slice | map | bytes | str | array | tuple | exact | structmap | structarr | depth | unknown
+  | slice | map | bytes | str | array | tuple | exact | structmap | structarr | depth | call | unknown
   deriving DecidableEq, Repr
 
 inductive Check where
-  | bound | intrinsic | fixed | loop | guard | exempt | missing | after | stale | undominated
+  | bound | intrinsic | fixed | loop | guard | exempt | missing | after | stale | undominated | passes | resets
   deriving DecidableEq, Repr
 
 structure Site where
@@ -90,16 +93,19 @@ def siteOK (s : Site) : Bool :=
   | .fixed => s.kind == .array || s.kind == .tuple || s.kind == .exact || s.kind == .depth
   | .loop => s.kind == .structmap || s.kind == .structarr
   | .guard => s.kind == .depth
+  | .passes => s.kind == .call
   | .exempt => (s.kind == .slice || s.kind == .map) && (!s.net && allowed s)
   | _ => false
 
 def checkName : Check → String
   | .bound => "bound" | .intrinsic => "intrinsic" | .fixed => "fixed" | .loop => "loop" | .guard => "guard"
   | .exempt => "exempt" | .missing => "missing" | .after => "after" | .stale => "stale" | .undominated => "undominated"
+  | .passes => "passes" | .resets => "resets"
 
 def kindName : Kind → String
   | .slice => "slice" | .map => "map" | .bytes => "bytes" | .str => "str" | .array => "array" | .tuple => "tuple"
-  | .exact => "exact" | .structmap => "structmap" | .structarr => "structarr" | .depth => "depth" | .unknown => "unknown"
+  | .exact => "exact" | .structmap => "structmap" | .structarr => "structarr" | .depth => "depth" | .call => "call"
+  | .unknown => "unknown"
 
 /-- why a site fails the policy (driver / report text) -/
 def whyBad (s : Site) : String :=
@@ -112,6 +118,7 @@ def whyBad (s : Site) : String :=
   | .after => "the bound check (" ++ s.bound ++ ") comes AFTER the allocation"
   | .stale => "the code enforces '" ++ s.bound ++ "' but the declaration says '" ++ s.decl ++ "'"
   | .undominated => "allocation / header read the extractor cannot tie to a check"
+  | .resets => "nested decoder of " ++ s.bound ++ " is not entered with this function's state `st`: `.UnmarshalMsg(bts)` restarts from msgp.DefaultUnmarshalState, the remaining depth is reset (unbounded recursion)"
   | _ => "site kind " ++ kindName s.kind ++ " does not fit check " ++ checkName s.check
 
 end AlgoVerif.MsgpSite
